@@ -100,7 +100,7 @@ fn run_values(ctx: &RunCtx, tier: Tier, family: usize) -> RunOut {
     let headers: Vec<(String, Vec<u8>)> = match family {
         0 => {
             // strings over SIGMA
-            let max_len = tier.pick(4usize, 5usize);
+            let max_len = tier.pick(5usize, 6usize);
             let mut v = vec![];
             for _ in 0..max_len {
                 let c = choose("char", SIGMA.len() + 1);
@@ -349,7 +349,7 @@ fn parts(tier: Tier) -> Vec<PartDef> {
         PartDef::new(
             "header-strings",
             Cfg::new("C07/header-strings"),
-            json!({"alphabet": "0 1 9 + - space tab a . 0xff", "max_length": tier.pick(4, 5), "status": [200, 500], "stored_interval": ["none", "1 h"], "exploration": "every string"}),
+            json!({"alphabet": "0 1 9 + - space tab a . 0xff", "max_length": tier.pick(5, 6), "status": [200, 500], "stored_interval": ["none", "1 h"], "exploration": "every string"}),
             move |ctx| run_values(ctx, tier, 0),
         ),
         PartDef::new(
